@@ -12,6 +12,7 @@
   ignores bit-string contents when e_cert_ext_invalid_der re-parses the certificate) are validated by the
   signature-replacement search, not proved.
 -/
+import ZlProofs.Lemmas.Der
 import ZlProofs.Lemmas.RunAll
 import ZlProofs.Props.C05
 namespace Zl.C09
@@ -92,5 +93,34 @@ theorem no_signature_checks :
 /-- non-vacuity of `sig_independent`: a lint reading field 0 only, objects differing on field 1 -/
 example : DependsOnly [0] (fun (o : Nat → Nat) (_ : Unit) => Exec.result (o 0) "") := by
   intro o o' _ h; simp [h 0 (by simp)]
+
+
+/-! ## The one lint that walks `c.Raw` with cryptobyte is blind to the signature element
+
+  `e_cert_sig_alg_not_match_tbs_sig_alg` is modelled (ZlModel/Der.lean: cryptobyte's DER element reader and
+  the lint's walk; tied by the `der` correspondence). For a certificate — SEQUENCE { tbsCertificate,
+  signatureAlgorithm, signatureValue } — its verdict is `compareAlg tbs alg`, whatever the third element is. -/
+section RawWalk
+open Zl.Der
+
+theorem raw_walk_ignores_signature (tbs alg sig sig' : Bytes)
+    (h1 : tbs.length + 6 < 4294967296) (h2 : alg.length + 6 < 4294967296)
+    (h3 : (tlv tagSeq tbs ++ (tlv tagSeq alg ++ sig)).length + 6 < 4294967296)
+    (h3' : (tlv tagSeq tbs ++ (tlv tagSeq alg ++ sig')).length + 6 < 4294967296) :
+    walk (tlv tagSeq (tlv tagSeq tbs ++ (tlv tagSeq alg ++ sig))) = walk (tlv tagSeq (tlv tagSeq tbs ++ (tlv tagSeq alg ++ sig'))) :=
+  sigAlgWalk_blind tbs alg sig sig' h1 h2 h3 h3'
+
+/-- the reader accepts exactly what the encoder writes: element boundaries are where the header says -/
+theorem der_reader_inverts_encoder (t : Nat) (c rest : Bytes) (ht : t % 32 ≠ 31) (hc : c.length + 6 < 4294967296) :
+    readAny (tlv t c ++ rest) = some (t, c, rest) := readAny_tlv t c rest ht hc
+
+/-- not vacuous: a matching and a mismatching algorithm, both with some signature bytes behind them -/
+example : walk (tlv tagSeq (tlv tagSeq (tlv tagInt [1] ++ tlv tagSeq [6, 1, 42]) ++ (tlv tagSeq [6, 1, 42] ++ [3, 2, 0, 255]))) = .pass := by decide
+example : walk (tlv tagSeq (tlv tagSeq (tlv tagInt [1] ++ tlv tagSeq [6, 1, 42]) ++ (tlv tagSeq [6, 1, 43] ++ [3, 2, 0, 255]))) = .error := by decide
+/-- non-minimal and indefinite lengths are refused, as cryptobyte does -/
+example : readAny [0x30, 0x81, 0x01, 0x00] = none ∧ readAny [0x30, 0x80, 0x00, 0x00] = none ∧ readAny [0x1f, 0x00] = none
+    ∧ readAny [0x30, 0x82, 0x00, 0x80] = none := by decide
+
+end RawWalk
 
 end Zl.C09
